@@ -59,6 +59,48 @@ CLAIMED.update({
   "text": "ConfigValidation.tla states for ROA deltas, ASPA definition and provider updates, router-key updates and child add/update when a request is accepted and what the configuration is afterwards, with the theorems AllOrNothing, nothing unbacked created or re-asserted, accepted delta fully applied, normalisation. TLC enumerates CA state x request (ROA deltas of up to 2 added + 2 removed entries over held/unheld/overlapping/whole-block prefixes, v4/v6, max length implicit/=len/len+1/family max/max+1/len-1, AS0, comments, duplicates; ASPA and router-key updates incl. bad CSR signatures; 10 child resource sets; states with entries for resources lost since). Each case runs on a real CA through the CaManager entry points; TLC judges accept/refuse, that a refusal leaves configuration and stored object set unchanged (history +<=1), and that after acceptance the configuration equals the request applied sequentially and the published payloads decoded from the object set equal the held part of the configuration. Thorough is exhaustive over the universe, quick a seeded sample.",
   "note": "Trusted: TLC; payload decoding with the rpki crate. Assumed: error text informative only; ROA 'same comment' judged against the pre-delta comment as the code does; ASPA provider updates lenient by design; 'repository' observed on the CA's stored object set, not on the publication server (C01 covers store -> server).",
   "ref": "§6 C05", "engines": ["TLC", "kv-vec"]},
+ "C07": {
+  "technique": "TLA+ model checking of spec/AggStore.tla with TLC (one action per lock, storage and cache step; all interleavings, bounded); TLC-generated thread programs run on OS threads against the real AggregateStore, WalStore and CertAuth; recorded hook-event interleavings validated by TLC against AggStoreTrace.tla",
+  "level": "model_checking",
+  "text": "TLC decides VersionsContiguous, ExactlyOnce, ReaderSeesPrefix, RejectLeavesOnlyAudit, NoopLeavesNoTrace, PreSaveFailLeavesNothing, HistoryListsAll, NoExit (the 'key in use' exit guard), AppendOnly, LockDiscipline and deadlock freedom on AggStore.tla for nine bounded configurations (up to 3 threads x 2 entities x 2 operations, incl. add_with_context, history cache, fresh-store snapshots, WAL variant); with the scope lock weakened to a read lock TLC must find the lost-update / exit counterexample (checked on every run). Binding: TLC-generated thread programs (simulation at 4 threads x 3 entities x 4 ops, BFS over all pairs of two-op programs, seeded contention programs) run on 2-4 OS threads with seeded yield delays against the real stores on both back-ends; TLC validates every recorded interleaving of hook events (lock wait/acquire/release, load, command, stored, cache) against the locked protocol, and after quiescence command keys, history order and actors, returned versions and live = replay = fresh load.",
+  "note": "Trusted: TLC; norm.rs, which inserts the thread-local steps the hooks do not log at the program point where the code performs them; hook sequence numbers taken under the lock. Real-code schedules are sampled, not enumerated. Crashes and I/O errors belong to C08.",
+  "ref": "§6 C07, §4.1", "engines": ["TLC", "kv-store"]},
+ "C06": {
+  "technique": "TLA+ model checking of spec/AggStore.tla (replay = snapshot = live as an invariant of the store protocol) with TLC; seeded histories of public operations on a real Krill with every changed entity rebuilt from snapshot+tail and from full replay; observations validated by TLC against AggStoreTrace.tla",
+  "level": "model_checking",
+  "text": "Protocol: ReplayEqSnapshotEqLive is an invariant of AggStore.tla, checked exhaustively (bounded) with snapshots taken by fresh and live store instances racing commands, a lagging live cache and WAL truncation. apply functions: seeded histories of public operations (TA, CAs on two levels with ROAs, ASPAs, children, entitlement changes, suspension, key rolls, id changes, delete_ca, extra publishers, tasks via verif_process_task, UpdateSnapshots, restarts); at each check point every changed entity is rebuilt twice - fresh store (snapshot + later commands) and fresh store on a snapshot-free copy (full replay) - and compared with the running manager through serde views and API views; TLC validates the observation events. A small oracle independent of apply records what accepted ROA, ASPA, child-resource and publisher commands asked for.",
+  "note": "Masked, each justified in hist.rs: ResourceClass.last_key_change and 'since' of RouteInfo / StoredBgpSecCsr (Time::now() inside apply, invisible to the API, whose views are compared unmasked). Hash-map ordered lists are compared as multisets. The live RepositoryAccess/Content aggregates are private and observed through the manager API.",
+  "ref": "§6 C06, §4.1", "engines": ["TLC", "kv-store"]},
+ "C10": {
+  "technique": "TLA+ model checking of spec/PubServer.tla with TLC (exhaustive, bounded); TLC-generated behaviours executed on the real RepositoryManager through signed RFC 8181 messages; recorded traces validated by TLC against PubServerTrace.tla",
+  "level": "model_checking",
+  "text": "PubServer.tla carries the merge table for staged deltas, the jail relation on path segments and the list/current/staged views. TLC checks AppliedIff, DeltaAtomic, ListIsCurrentPlusStaged, Isolation / IsolationPublished, RemoveWithdrawsExactlyOwn, UnknownRefused, UpdatePublishesViews exhaustively for handle sets {a, a/b} with all deltas and {a, ab, a/b} with deltas of up to 1 (quick) / 2 (thorough) elements. Generated behaviours (acceptable, near-miss and arbitrary deltas; add / remove / list / RRDP update / session reset; scheme and host case variants of URIs) are executed on the real server and validated by TLC; the merge table is bound through the delta and snapshot files every update writes.",
+  "note": "Trusted: TLC, the rpki crate's XML/CMS parsing, SHA-256. Assumed: sequential requests (concurrency is C18); rrdp_delta_interval_min_seconds = 0; CMS identity binding is C12. Known findings: nested jails (S6), scheme-case identity split (D1).",
+  "ref": "§6 C10, §4.4", "engines": ["TLC", "kv-pub"]},
+ "C11": {
+  "technique": "TLA+ model checking of spec/RepoFiles.tla (one action per file-system mutation, Crash / IoError between any two) with TLC; every cut of every write enumerated on the real publication server through the file-system fault points; recorded traces validated by TLC against RepoFilesTrace.tla",
+  "level": "model_checking",
+  "text": "RepoFiles.tla extends PubServer.tla by the RRDP and rsync files with one action per mutation and RRDP clients as a history set. TLC checks NotificationParsable, NotificationRefsExist, SnapshotIsStateAtSerial, ClientCatchesUp, SerialPlusOne, SessionOnlyOnReset, DeltasBounded / DeltasNeverExceedMaxNr, DeltasContiguous, DiskFollowsLogical, RsyncEqualsSnapshotAfterWrite, InterruptedWriteNeverBlocks exhaustively for one publisher with every cut of every write (1 fault quick, 2 thorough) and a retention grid. On the real code every write of 4 base scenarios is cut at every file-system mutation, as crash and as error (thorough: all ~1600; quick: a seeded sample), publication continues afterwards, and the complete projection of repo/rrdp and repo/rsync (parsed with rpki::rrdp, hashes recomputed) is validated by TLC after every action; plus TLC-simulated behaviours with random faults under 3 / 9 retention configurations; model-level counterexamples are replayed on the code before anything is reported.",
+  "note": "Assumed: the key-value store is durable (C08); one file-system mutation is atomic; ages are 0 or ten days; serials stay below 10; no concurrent writers (C18); strict RFC 8182 clients. Known finding: the minimum rules beat max_nr (D3r).",
+  "ref": "§6 C11, §4.4", "engines": ["TLC", "kv-pub"]},
+ "C12": {
+  "technique": "TLA+ model checking of spec/UpDownAuth.tla with TLC; TLC evaluates Valid(m) for all 5391 messages of the lattice in every reached identity state; every refused message is sent as real CMS to the real CaManager::rfc6492 / RepositoryManager::rfc8181 and must be refused without effect; valid probes are trace-validated by TLC against UpDownAuthTrace.tla",
+  "level": "model_checking",
+  "text": "UpDownAuth.tla states the acceptance rule (signing key = identity registered at the receiving server for the claimed sender, content = signed content) and the obligations: refused => nothing changes; accepted => only the sender's own certificates / objects within entitlement / base URI change; every signed reply carries the server's current identity key; only a request that is acted upon re-activates a suspended child. The lattices: RFC 6492 = 8 signing keys (incl. another child's, a replaced identity, an unregistered key, the server's own) x 3 claimed senders x 2 recipients x 2 end points x list/issue/revoke x tamper class; RFC 8181 = 5 keys x 3 publisher handles x list/publish/withdraw x 4 URIs; states include identity updates on either side, publisher re-registration and suspension. Six deliberately wrong server models must each be caught by TLC. On the code: quick covers all states of depth <= 1 plus a seeded sample of depth 2, thorough all of depth <= 2 plus 170 of depth 3; 'nothing changed' is a fingerprint over CA aggregates, status, repository, TA proxy and every file on disk. Single-bit corruption of one message per kind is exploration and labelled so.",
+  "note": "Trusted: TLC, the rpki crate's decoder and validator, RSA/CMS strength. The RFC 6492 recipient handle is not part of the demanded rule (krill ignores it). The publication server has no identity update operation.",
+  "ref": "§6 C12, §4.5", "engines": ["TLC", "kv-auth"]},
+ "C15": {
+  "technique": "TLA+ model checking of spec/TaExchange.tla with TLC (all sequences, bounded, with an adversary); TLC-generated behaviours executed on a real TA proxy, the real offline signer and real TA children; traces validated by TLC against TaExchangeTrace.tla",
+  "level": "model_checking",
+  "text": "TaExchange.tla defines ProxyAccepts (a request is open, nonce = open nonce, signed by the associated signer, clear text = signed text) and SignerAccepts (signed by the associated proxy, clear text = signed text) and states RefusedUnchanged, OneResponsePerRequest, DeliveredExactlyOnce, TaNumbersIncrease. TLC checks all sequences for two children with two requests each, two signer instances, another proxy, signer re-initialisation, and an adversary that presents any message ever sent as is, with changed nonce, changed content, the clear text of another message, or re-signed by a fresh key or the proxy's own key; ten wrong models are each caught. Binding: TLC simulation (depth 40) plus all / sampled depth-6 behaviours run on a real TA proxy (ta_proxy_*, rfc6492 hand-over via ca_sync_parent), real local child CAs (first certification, key roll, activation) and the real offline signer (cli::ta::signer::TrustAnchorSignerManager), with a second signer and proxy instance; altered messages are made through serde or re-signing; TA manifest and CRL numbers are decoded from the proxy's objects and the repository after every step.",
+  "note": "Assumed: signature strength; the signer may re-process a request it has already seen; re-initialisation continues the numbering as the operator would; audit-trail version bumps of refused commands are not counted as change.",
+  "ref": "§6 C15, §4.5", "engines": ["TLC", "kv-auth"]},
+ "C16": {
+  "technique": "TLA+ catalogue model (spec/Malformed.tla: endpoint x malformation class x context, the only permitted outcome of a malformed input is error reply and unchanged state) checked with TLC; TLC enumerates all vectors; the harness concretises each with seeded instances and feeds them to the real entry points inside catch_unwind and through the real HTTP request processing; TLC (MalformedTrace.tla) judges every recorded outcome",
+  "level": "exploration",
+  "text": "TLC model-checks Malformed.tla (AlwaysAlive, AlwaysAnswers = ENABLED Malformed for every vector in every state, ErrorLeavesState) and enumerates all 4776 vectors of context x endpoint (29) x class (129) x addressed entity x channel. Every vector becomes seeded instances - structured mutations of a valid message of that endpoint (signed CMS with garbage or odd XML, DER tag/length flips, JSON type/number/nesting/duplicate mutations, ROA / prefix / ASN / resource-set / handle / certificate / URI value classes, path-segment mutations) or raw random bytes - run on the real code through two channels: direct (CaManager::rfc6492, RepositoryManager::rfc8181, serde decoding of the API request types followed by the manager call the dispatcher makes, the FromStr parsers of stored notations, BgpAnalyser) inside catch_unwind, and http (the real HttpServer::process_request: authentication, dispatcher, thread pool). Recorded per vector and distinct outcome: kind of reply, whether the configuration digest or the published-content digest changed, panic location; panic, exit, a non-reply, an error reply with a changed digest and an ok reply to a by-construction-malformed class match no action of the trace spec. The catalogue is covered completely, the byte space is sampled (quick ~48 k inputs, thorough ~850 k): a clean run is no proof of absence.",
+  "note": "Harness profile has release arithmetic (overflow-checks=false, debug-assertions=false) and panic=unwind; process::exit is observed through about_to_exit; process deaths that are not panics through the harness exit status. The http channel has no scheduler thread. Status records are not configuration. Classification of replies, mutators and seeds are trusted. Known findings: two panics inside the rpki crate, bulk import and child update not atomic.",
+  "ref": "§6 C16", "engines": ["TLC", "kv-fuzz"]},
  "C13": {
   "technique": "TLA+ decision-table model (spec/Authz.tla) checked with TLC; TLC-enumerated request cases executed against the real daemon started in-process (Unix socket and TLS); TLC (AuthzTrace.tla) judges every recorded request",
   "level": "model_checking",
@@ -107,6 +149,8 @@ def main():
              "kind_free_text": "Rust harness for the aggregate / WAL stores (concurrent commands with hook traces, replay/snapshot differential)"},
             {"name": "kv-vec", "path": "harness-vec/", "serves_properties": [p for p in served if "kv-vec" in CLAIMED[p]["engines"]],
              "kind_free_text": "Rust harness replaying TLC-enumerated decision vectors (ROA analysis, configuration validation)"},
+            {"name": "kv-fuzz", "path": "harness-fuzz/", "serves_properties": [p for p in served if "kv-fuzz" in CLAIMED[p]["engines"]],
+             "kind_free_text": "Rust harness feeding seeded malformed inputs to the provisioning, publication and API entry points inside catch_unwind and through the real HTTP request processing"},
             {"name": "kv-auth", "path": "harness-auth/", "serves_properties": [p for p in served if "kv-auth" in CLAIMED[p]["engines"]],
              "kind_free_text": "Rust harness for signed RFC 6492 / RFC 8181 exchanges and the TA proxy/signer exchange"},
         ],
